@@ -804,6 +804,14 @@ func genC10(p *Plan, tier string) {
 			}
 		}
 	}
+	// and once more alone, after the groups: overlap must not leave anything behind for later
+	// requests either (and two executions alone show whether a rejection's wording is stable)
+	for i, it := range items {
+		op := mk(fmt.Sprintf("again%d", i), it)
+		op.MapOrder = order
+		op.Expect = &Expect{SameAs: fmt.Sprintf("solo%d", i)}
+		p.Ops = append(p.Ops, op)
+	}
 }
 
 // genC10Soak: one request shape, many distinct criteria names, all inside one process: state that
